@@ -33,6 +33,7 @@ FINDINGS = [
  ('F8', 'C15.A2', 'close + restore of the active blob ⇒ `blobs_count()` = 2 with one blob: `HierarchicalFilters::len` counted vacated slots', 'b21a1de', 'count occupied slots'),
  ('F9', 'C06.K2', 'records k1 (100 B), k2 (5000 B); remove index; cut the last 5000 bytes (header+meta remain); reopen; write k3; close; remove index; reopen ⇒ k3 NotFound, corrupted = 0', '8308439', 'extent check in the scan ⇒ quarantine-class error'),
  ('F10', 'C03.I5, C06.K7, C11.F6', 'closed blob t.0 with 3 keys; truncate `t.0.index` by 10 bytes (header intact); reopen ⇒ stored keys read NotFound', 'f68f230', 'compare the file size with the extent implied by the header in `validate`'),
+ ('F13', 'C13.L11', 'closed blobs 0,1; an explicit dump task is held at blob 1 (dump semaphore); `delete(k)` in closed blob 0 requests a deferred dump; it becomes due while the task is busy ⇒ the event is registered again but `next_deadline` stays None: the requested index dump of blob 0 never runs (`docs/probes/probe_f13.rs`, found while triaging seed C13r3-b)', '3f851bc', 'arm the deadline when the event is postponed'),
  ('F12', 'C06.K5', '`ignore_corrupted()`, the only blob cut to 50 bytes, no index ⇒ `init()` = Err(Uninitialized) (without the flag: Ok)', '4056f8e', 'create a fresh blob whenever none could be opened'),
 ]
 
